@@ -157,8 +157,14 @@ def check(case):
                 w.net.add_server(tunnel, McServer(w.clock, name="tunnel"))
             klass = type("Tunnelled", (AWSElastiCacheHashClient,), {"client_class": subclasses.TunnelClient})
             labels.append("client_class")
+        tkw = {}
+        if case.get("tls"):
+            # in-transit encryption: a TLS context (as ssl.create_default_context() makes it: check_hostname on) for every connection
+            from vlib.fakenet import FakeTLSContext
+            tkw["tls_context"] = FakeTLSContext(w.net)
+            labels.append("tls")
         r = bracket(lambda: klass(CFG, socket_module=w.net, use_vpc=use_vpc, use_pooling=case.get("pooling", False),
-                                                     default_noreply=False, timeout=1, retry_attempts=case.get("retry_attempts", 2)))
+                                                     default_noreply=False, timeout=1, retry_attempts=case.get("retry_attempts", 2), **tkw))
         if r[0] == "exc":
             raise Violation(["construction-raises", type(r[1]).__name__], "construction raised %r: %s" % (r[1], desc))
         hc = r[1]
@@ -293,6 +299,9 @@ def fixed_history_cases(tier, seed):
         for vpc in (True, False, 1, 0):
             for pooling in (False, True):
                 yield {"steps": h, "use_vpc": vpc, "pooling": pooling, "nkeys": 60}
+    for h in hist[:6] + hist[-3:]:
+        for vpc in (True, False):
+            yield {"steps": h, "use_vpc": vpc, "pooling": bool(len(h) % 2), "nkeys": 60, "tls": True}
     # the configuration version the endpoint reports grows with every topology change and crosses digit boundaries
     for vb in (7, 8, 9, 97, 98, 99, 998, 4294967294):
         for h in ([[0, 1, 2], [0, 1, 2, 3], [1, 4], [4]], [[0], [1], [2], [0, 1, 2]]):
@@ -510,7 +519,7 @@ def history_strategy(tier):
     sched = st.one_of(st.none(), st.lists(st.sampled_from([1, 2, 3, 5, 8, 13, 50, 4096]), min_size=1, max_size=4))
     fb = st.dictionaries(st.sampled_from(["1", "2", "3"]), st.lists(st.integers(0, 7), min_size=1, max_size=3, unique=True), max_size=2)
     return st.fixed_dictionaries({"steps": st.lists(nodes, min_size=1, max_size=6), "use_vpc": st.sampled_from([True, False, 1, 0]), "pooling": st.booleans(),
-                                  "nkeys": st.sampled_from([20, 60, 200]), "schedule": sched, "fail_before": fb,
+                                  "nkeys": st.sampled_from([20, 60, 200]), "schedule": sched, "fail_before": fb, "tls": st.sampled_from([False, False, True]),
                                   "client_class": st.sampled_from([None, None, "tunnel"]), "layout": st.sampled_from([None, None, "crlf", "huge-version"]),
                                   "fail_refresh": st.one_of(st.none(), st.dictionaries(st.sampled_from(["1", "2", "3"]), st.sampled_from(["ERROR", "SERVER_ERROR busy", "down"]), max_size=2)), "app_add": st.one_of(st.none(), st.dictionaries(st.sampled_from(["1", "2", "3"]), st.lists(st.integers(0, 7), min_size=1, max_size=2), max_size=2)),
                                   "retry_attempts": st.sampled_from([0, 1, 2]), "version_base": st.sampled_from([1, 1, 8, 9, 98, 99, 65535])})
